@@ -182,16 +182,18 @@ def quad_area(q, inc):
 
 
 def quad_inside_margin(q, p):
-    """Signed angular margin (radians, small-angle) of point(s) p w.r.t. the quad: the minimum
-    over the four great-circle edges of the signed distance to the edge, positive inside.
-    Orientation of the edge normals is fixed with the quad's own centroid."""
+    """Signed angular margin (radians) of point(s) p w.r.t. the quad: the minimum over the four
+    great-circle edges of the signed distance to the edge, positive inside.  The edge normal is
+    a x (b - a): for the nearly parallel corners of a deep tile the plain a x b loses
+    eps / |b - a| of direction, this form does not.  Orientation of the normals is fixed with the
+    quad's own centroid."""
     q = np.asarray(q, dtype=float)
     p = np.asarray(p, dtype=float)
     cen = _norm(q.sum(axis=0))
     margins = []
     for k in range(4):
         a, b = q[k], q[(k + 1) % 4]
-        nrm = np.cross(a, b)
+        nrm = np.cross(a, b - a)
         ln = math.sqrt(float((nrm * nrm).sum()))
         if ln == 0.0:
             continue
@@ -200,6 +202,11 @@ def quad_inside_margin(q, p):
             nrm = -nrm
         margins.append(np.arcsin(np.clip((p * nrm).sum(axis=-1), -1.0, 1.0)))
     return np.min(np.array(margins), axis=0)
+
+
+def quad_min_edge(q):
+    q = np.asarray(q, dtype=float)
+    return float(min(chord(q[k], q[(k + 1) % 4]) for k in range(4)))
 
 
 def chord(u, v):
